@@ -123,6 +123,7 @@ fn main() {
     let watchdog = std::env::var("HARNESS_NO_WATCHDOG").is_err();
     let stats = std::env::var("HARNESS_ALLOC_STATS").is_ok();
     let mut max_ratio = 0f64;
+    let mut last_flush = std::time::Instant::now();
     for line in stdin.lock().lines() {
         let Ok(line) = line else { break };
         ALLOCATED.store(0, Ordering::Relaxed);
@@ -145,6 +146,12 @@ fn main() {
             max_ratio = max_ratio.max(used as f64 / (line.len() as f64 + 64.0));
         }
         writeln!(out, "{}", res).unwrap();
+        // every answer is on the wire before the next operation starts: when an operation never returns, the runner sees
+        // exactly which one (the line after the last answer) without bisecting
+        if last_flush.elapsed().as_millis() >= 20 {
+            out.flush().unwrap();
+            last_flush = std::time::Instant::now();
+        }
     }
     out.flush().unwrap();
     if stats {
